@@ -6,6 +6,7 @@ var verifHarnesses = map[string]func(){
 	"HarnessSmoke2": HarnessSmoke2,
 	"HarnessC01a":   HarnessC01a,
 	"HarnessC04a":   HarnessC04a,
+	"HarnessC19a":   HarnessC19a,
 	"HarnessC12a":   HarnessC12a,
 	"HarnessC10a":   HarnessC10a,
 	"HarnessC10b":   HarnessC10b,
